@@ -215,6 +215,15 @@ fn cmd_observe(m: &HashMap<String, String>) {
 
 /// gv worker: executes one request per stdin line in this (expendable) process
 fn cmd_worker() {
+    // a worker whose parent has gone (killed check, expired deadline) must not go on spinning in a
+    // call that never returns: leave as soon as the process has been re-parented
+    let parent = std::os::unix::process::parent_id();
+    std::thread::spawn(move || loop {
+        std::thread::sleep(std::time::Duration::from_millis(500));
+        if std::os::unix::process::parent_id() != parent {
+            std::process::exit(3);
+        }
+    });
     use std::io::{BufRead, Write};
     let stdin = std::io::stdin();
     let stdout = std::io::stdout();
